@@ -1,5 +1,6 @@
 import PyYetiVerif.Model.Op2
 import PyYetiVerif.Model.Op2Read
+import PyYetiVerif.Model.Op4VariantsRead
 /-! Line protocol for C11 (numbers decimal, byte strings hex).
 
   encv <l|b> <bit64> <single> <n> vmat…        → hex bytes of an OUTPUT4 binary variant file
@@ -20,6 +21,14 @@ import PyYetiVerif.Model.Op2Read
                M <storedrows> <cplx> <width> <ncols> { <nnz> { <row>:<bits> } } <endpos>
              | T <nrec> { <n> key… } <endpos>  |  E <class>
      mats  = <n> { <namehex|-> M … }  |  E <class>            (`rdop2mats()`)
+  rd4 <cut> <mode> <names|-> <hex>   → the binary OUTPUT4 reader model of Model/Op4VariantsRead.lean on the bytes;
+     mode d|s|a = `op4.load(file, namelist, into='list', sparse=False|True|None)`, l = `op4.dir(file)`,
+     * = `d ;; s ;; a ;; l`; names = comma separated hex names (`-`: no name list); cut = `_rowsCutoff`
+     reply `err <class>` or `ok <l|b> <bit64> item|item|…`
+     item (load) = <namehex>,<rows>,<cols>,<form>,<mtype>,<layout d|b|n>,<sparse 0|1>,<width>,<data>
+       data (dense)  = per column `<nnz> <idx>:<bits> …` over the stored reals (2 per complex element) | huge | put-error:<class>
+       data (sparse) = `<r> <c> <bits> [<bits>]` per element, file order | put-error:<class>
+     item (dir)  = <namehex>,<abs rows>,<cols>,<form>,<mtype>
 -/
 open PyYetiVerif.Op4 PyYetiVerif.Op4V PyYetiVerif.Op2 PyYetiVerif.Op2R
 
@@ -237,6 +246,68 @@ def rd2 (f : List Nat) : String :=
     out := out ++ mats
     return " ".intercalate out.toList
 
+/-! ### the binary OUTPUT4 reader model -/
+
+open PyYetiVerif.Op4VR in
+def showDec4 (v : V2) (mode : Char) (d : VDec) : String :=
+  let cplx := decide (d.mtype ≥ 3)
+  let m := if cplx then 2 else 1
+  let rows := d.rows.natAbs
+  let cols := d.cols.toNat
+  let width := (PyYetiVerif.Op4VR.cfgOf v 0 d.mtype).rb
+  let sparse := match mode with
+    | 's' => true
+    | 'd' => false
+    | _ => d.sparseAuto
+  let lay := match d.layout with | .dense => "d" | .bigmat => "b" | .nonbigmat => "n"
+  let head := s!"{toHex d.name},{d.rows},{d.cols},{d.form},{d.mtype},{lay},{if sparse then 1 else 0},{width},"
+  if sparse then
+    match PyYetiVerif.Op4VR.cooOfPuts m d.puts with
+    | .error e => head ++ "put-error:" ++ errName e
+    | .ok trip =>
+      -- `coo_matrix((V, (I, J)), shape)` refuses indices outside the shape
+      if trip.any (fun t => t.1 ≥ rows ∨ t.2.1 ≥ cols) then head ++ "put-error:value" else
+      head ++ " ".intercalate (trip.map fun (r, c, xs) =>
+        let xs := if cplx && width == 8 then
+            match xs with
+            | [a, b] => let e := PyYetiVerif.Op4.cooEntry true (a, b); [e.1, e.2]
+            | _ => xs
+          else xs
+        s!"{r} {c} " ++ " ".intercalate (xs.map toString))
+  else
+    if rows * cols > 20000000 then head ++ "huge" else
+    match PyYetiVerif.Op4VR.applyPuts m rows cols d.puts with
+    | .error e => head ++ "put-error:" ++ errName e
+    | .ok X => head ++ " ".intercalate (X.map fun col => Id.run do
+        let mut i := 0
+        let mut ent : Array String := #[]
+        for x in col do
+          if x != 0 then ent := ent.push s!"{i}:{x}"
+          i := i + 1
+        return " ".intercalate (toString ent.size :: ent.toList))
+
+open PyYetiVerif.Op4VR in
+def rd4 (cut : Int) (mode : Char) (pl : List (List Nat)) (f : List Nat) : String :=
+  match PyYetiVerif.Op4VR.detect f with
+  | .error e => "err " ++ errName e
+  | .ok none => "err ascii"
+  | .ok (some v) =>
+    let head := s!"ok {match v.e with | .little => "l" | .big => "b"} {if v.bit64 then 1 else 0} "
+    let ld := PyYetiVerif.Op4VR.loadLoop v cut pl (f.length + 1) 0 f
+    let one := fun (m : Char) => match ld with
+      | .error e => "err " ++ errName e
+      | .ok ds => head ++ "|".intercalate (ds.map (showDec4 v m))
+    let dr := match PyYetiVerif.Op4VR.dirLoop v (f.length + 1) 0 f with
+      | .error e => "err " ++ errName e
+      | .ok ls => head ++ "|".intercalate (ls.map fun (n, r, c, fo, t) => s!"{toHex n},{r},{c},{fo},{t}")
+    match mode with
+    | 'l' => dr
+    | '*' => " ;; ".intercalate [one 'd', one 's', one 'a', dr]
+    | m => one m
+
+def namesTok (t : String) : Option (List (List Nat)) :=
+  if t == "-" then some [] else (t.splitOn ",").mapM fun x => unhex x.toList
+
 def run (p : P String) (ws : List String) : String :=
   match p.run ws with
   | some (s, []) => s
@@ -274,6 +345,14 @@ def answer (line : String) : String :=
     | some f => rd2 f
     | none => "bad-op"
   | ["rd2"] => rd2 []
+  | ["rd4", cut, mode, names, hx] =>
+    match cut.toInt?, mode.toList, namesTok names, unhexFast hx with
+    | some cut, [m], some pl, some f => rd4 cut m pl f
+    | _, _, _, _ => "bad-op"
+  | ["rd4", cut, mode, names] =>
+    match cut.toInt?, mode.toList, namesTok names with
+    | some cut, [m], some pl => rd4 cut m pl []
+    | _, _, _ => "bad-op"
   | _ => "bad-op"
 
 partial def loop (h : IO.FS.Stream) (out : IO.FS.Stream) : IO Unit := do
